@@ -33,6 +33,41 @@ func (c18) MinNontrivial(tier string) int { return tierN(tier, 600, 6000) }
 
 var c18Validator = validator.New(validator.WithRequiredStructEnabled())
 
+// multiValidated: one component with several validated members (a struct and scalars, in seeded order):
+// start-up fails exactly when at least one of them violates its constraints - whichever and wherever.
+func (p c18) multiValidated(c *core.Ctx) {
+	inner := world.BuildStruct([]world.FieldSpec{
+		{Name: "S", Type: reflect.TypeOf(""), Tag: `yaml:"s" validate:"eq=abc"`},
+		{Name: "P", Type: reflect.TypeOf(0), Tag: `yaml:"p" validate:"min=10,max=60"`},
+	})
+	sval := []string{"abc", "abc", "abx"}[c.Rng.Intn(3)]
+	port := []int{20, 30, 5, 70}[c.Rng.Intn(4)]
+	structBad := sval != "abc" || port < 10 || port > 60
+	n1, n2 := c.Rng.Intn(12), c.Rng.Intn(12)
+	f := []world.FieldSpec{
+		{Name: "St", Type: []reflect.Type{inner, reflect.PointerTo(inner)}[c.Rng.Intn(2)], Tag: fmt.Sprintf("value:%q", fmt.Sprintf("map[s:%s p:%d],validate", sval, port))},
+		{Name: "N1", Type: reflect.TypeOf(0), Tag: fmt.Sprintf("value:%q", fmt.Sprintf("#{%d+1},validate=min=5", n1))},
+		{Name: "N2", Type: reflect.TypeOf(0), Tag: fmt.Sprintf("value:%q", fmt.Sprintf("%d,validate=max=8", n2))},
+	}
+	c.Rng.Shuffle(len(f), func(i, j int) { f[i], f[j] = f[j], f[i] })
+	wantFail := structBad || n1+1 < 5 || n2 > 8
+	_, r := startHolder(c, f, "")
+	c.Count("starts", 1)
+	c.Count("components_with_several_validated_members", 1)
+	detail := map[string]any{"fields": fmt.Sprint(f), "struct_violates": structBad, "n1": n1 + 1, "n2": n2, "outcome": core.Short(r.OutcomeDetail(), 300)}
+	if abnormal(r.Outcome()) {
+		c.Fail("", "component with several validated members: "+r.OutcomeDetail(), detail)
+		return
+	}
+	if wantFail != (r.Outcome() == "error") {
+		c.Fail("", fmt.Sprintf("component with several validated members (declared in the order %s %s %s): struct member violates=%v, N1=%d (min=5), N2=%d (max=8): a violation exists=%v, start outcome %s", f[0].Name, f[1].Name, f[2].Name, structBad, n1+1, n2, wantFail, r.Outcome()), detail)
+		return
+	}
+	if wantFail {
+		c.Nontrivial(fmt.Sprintf("multivalidated|%v|%d|%d|%s%s%s", structBad, n1, n2, f[0].Name, f[1].Name, f[2].Name))
+	}
+}
+
 // preset: a field that the component's constructor filled before the start receives the bound value - the
 // expression's result, the configured value - not a mixture of it and its previous content, and it is the
 // bound value that is validated.
@@ -104,6 +139,10 @@ func (p c18) Run(c *core.Ctx) {
 		p.preset(c)
 		return
 	}
+	if c.Index%24 == 17 {
+		p.multiValidated(c)
+		return
+	}
 	if c.Index%12 == 7 {
 		p.repeated(c)
 		return
@@ -135,11 +174,24 @@ func genC18Env(c *core.Ctx) c18Env {
 		"op":  map[string]any{"cmp": []string{">=", "<", "==", "!="}[c.Rng.Intn(4)], "arith": []string{"+", "-", "*"}[c.Rng.Intn(3)]},
 		"ref": "n.a",
 	}
+	if c.Rng.Intn(2) == 0 {
+		// configuration keys that happen to be spelled like functions of the expression language: unrelated
+		// to any expression that calls those functions
+		for _, k := range []string{"upper", "lower", "max", "min", "len", "abs", "trim"} {
+			if c.Rng.Intn(2) == 0 {
+				t[k] = c.Rng.Intn(50)
+			}
+		}
+	}
 	b, _ := yaml.Marshal(t)
 	return c18Env{tree: t, doc: string(b)}
 }
 
 func intOperand(c *core.Ctx) string {
+	if c.Rng.Intn(10) == 0 {
+		// calls of the expression language's built-in functions
+		return []string{"max(${n.a}, ${n.b})", "min(${n.a}, 7)", "len('${s.x}')", "abs(${n.c})"}[c.Rng.Intn(4)]
+	}
 	switch c.Rng.Intn(6) {
 	case 0:
 		return fmt.Sprint(c.Rng.Intn(30))
@@ -194,6 +246,9 @@ func strExpr(c *core.Ctx) string {
 	}
 	if c.Rng.Intn(8) == 0 { // results that are text although they resemble literals of other notations
 		return []string{"'0x'+'ff00'", "'1_'+'000'", "'0b'+'101'", "'0o'+'17'", "'${n.b}'+'_'+'${n.b}'"}[c.Rng.Intn(5)]
+	}
+	if c.Rng.Intn(8) == 0 {
+		return []string{"upper('${s.x}')", "lower('${s.y}')+'-'+upper('${s.x}')", "trim(' ${s.x} ')"}[c.Rng.Intn(3)]
 	}
 	switch c.Rng.Intn(3) {
 	case 0:
